@@ -143,6 +143,58 @@ Section Loop.
           rewrite E1, E3. simpl. exists (c :: oa), ob. repeat split. exact E2.
     Qed.
   End Block.
+
+  (* --- a separator that ends a construct and belongs to it, and that is skipped when it
+         comes first (the ";" of ParseBlocksContents: an invalid declaration's error is
+         reported AT its ";", so the ";" belongs to the item) --- *)
+  Section SepSkipped.
+    Variable sep : token.
+    Hypothesis sep_skipped :
+      is_ws sep = false /\ is_comment sep = false /\
+      match sep with TLiteral _ v => sl v | _ => false end = true.
+    Hypothesis sep_local : forall t r b,
+      (C t (r ++ sep :: b) = (fst (C t (r ++ [sep])), b) /\ snd (C t (r ++ [sep])) = []) \/
+      (exists s, C t (r ++ sep :: b) = (fst (C t (r ++ [sep])), s ++ sep :: b) /\
+                 snd (C t (r ++ [sep])) = s ++ [sep]).
+
+    Lemma loop_sep_skipped : forall n a b f fa fb, (length a <= n)%nat ->
+      (length (a ++ sep :: b) < f)%nat -> (length (a ++ [sep]) < fa)%nat -> (length b < fb)%nat ->
+      exists oa ob, loop fa (a ++ [sep]) = Ok oa /\ loop fb b = Ok ob /\ loop f (a ++ sep :: b) = Ok (oa ++ ob).
+    Proof.
+      destruct sep_skipped as (Hs1 & Hs2 & Hs3).
+      assert (Base : forall b f fa fb, (length (sep :: b) < f)%nat -> (length [sep] < fa)%nat -> (length b < fb)%nat ->
+        exists oa ob, loop fa [sep] = Ok oa /\ loop fb b = Ok ob /\ loop f (sep :: b) = Ok (oa ++ ob)).
+      { intros b f fa fb Hf Hfa Hfb.
+        destruct (loop_ok fb b Hfb) as [ob Eb].
+        destruct f as [|f]; [lia|]. destruct fa as [|fa]; [lia|]. cbn [list_loop]. rewrite Hs1, Hs2, Hs3.
+        simpl in Hfa. destruct fa; [lia|]. exists [], ob. split; [reflexivity|]. split; [exact Eb|].
+        eapply loop_irrel; [exact Hfb| |exact Eb]. simpl in Hf. lia. }
+      induction n as [|n IH]; intros a b f fa fb Hn Hf Hfa Hfb.
+      - destruct a; [|simpl in Hn; lia]. apply Base; assumption.
+      - destruct a as [|t r]; [apply Base; assumption|].
+        destruct f as [|f]; [lia|]. destruct fa as [|fa]; [lia|].
+        simpl in Hn, Hf, Hfa. cbn [app list_loop].
+        destruct (is_ws t).
+        { destruct (IH r b f fa fb) as (oa & ob & E1 & E2 & E3); try lia.
+          rewrite E1, E3. simpl. exists (if kw then tok_compound t :: oa else oa), ob.
+          split; [reflexivity|]. split; [exact E2|]. destruct kw; reflexivity. }
+        destruct (is_comment t).
+        { destruct (IH r b f fa fb) as (oa & ob & E1 & E2 & E3); try lia.
+          rewrite E1, E3. simpl. exists (if kc then tok_compound t :: oa else oa), ob.
+          split; [reflexivity|]. split; [exact E2|]. destruct kc; reflexivity. }
+        destruct (match t with TLiteral _ v => sl v | _ => false end).
+        { apply IH; lia. }
+        pose proof (Hlen t (r ++ [sep])) as Hl.
+        destruct (sep_local t r b) as [[E Hnil]|(s & E & Hs)]; rewrite E;
+          destruct (C t (r ++ [sep])) as [c r'] eqn:Ec; cbn [fst snd] in *.
+        + subst r'. destruct (loop_ok fb b Hfb) as [ob Eb].
+          rewrite (loop_irrel fb f b ob Hfb) by (try exact Eb; rewrite app_length in Hf; simpl in Hf; lia).
+          destruct fa; [rewrite app_length in Hfa; simpl in Hfa; lia|]. simpl. exists [c], ob. repeat split. exact Eb.
+        + subst r'. rewrite !app_length in *. simpl in *.
+          destruct (IH s b f fa fb) as (oa & ob & E1 & E2 & E3); try (rewrite ?app_length; simpl; lia).
+          rewrite E1, E3. simpl. exists (c :: oa), ob. repeat split. exact E2.
+    Qed.
+  End SepSkipped.
 End Loop.
 
 (* ------------------------------------------------------------------ the consumers stop where they should *)
